@@ -376,7 +376,7 @@ def run_behaviour(item):
     if why:
       ev["why"] = why
     trace.append(ev)
-    if "exp" in st and wf:
+    if "exp" in st and wf and not item.get("mutant"):     # (a witness history carries a MUTANT design's prediction)
       if a == "Send":
         got = sorted([h["s"], h["i"], h["pktin"], sorted(set(h["out"]))] for h in obs["hops"])
         want = sorted([h["s"], h["i"], h["pktin"], sorted(h["out"])] for h in st["exp"]["hops"])
